@@ -668,11 +668,10 @@ class Recfile(object):
             elif num > self.nrows:
                 num = self.nrows
         else:
-            # single element
+            # single element; out of range values are caught by the range
+            # check in _get_rows2read
             if num < 0:
                 num = self.nrows + num
-            elif num > (self.nrows - 1):
-                num = self.nrows - 1
 
         return num
 
